@@ -192,4 +192,27 @@ example : (preprocess ["Alpha", "Beta"] [.changeMeta "Alpha" "unique_together" (
     = some [.addField "Alpha" "c" "IntegerField" none [], .changeMeta "Alpha" "unique_together" (.together [["a", "c"]])] := by
   decide
 
+/-! ## the optimiser's final filter: `mutation not in removed_mutations` -/
+
+/-- membership in the Python set of removed mutations: by identity when mutations hash by `id(self)`;
+otherwise (a hash that equal-looking mutations share) `__eq__`, i.e. the same hint text, decides -/
+def finalFilter (hashById : Bool) (texts : List String) (removed : List Nat) : List Nat :=
+  (List.range texts.length).filter (fun i =>
+    if hashById then !removed.contains i
+    else !(removed.any (fun r => texts.getD r "" == texts.getD i "")))
+
+/-- **exactly the mutations the optimiser marked are dropped**, whatever the others look like: a
+mutation with the same text as a removed one stays (this is what `processBatch` assumes) -/
+theorem C03_filter_by_identity (texts : List String) (removed : List Nat) (i : Nat) :
+    i ∈ finalFilter true texts removed ↔ i < texts.length ∧ i ∉ removed := by
+  simp [finalFilter, List.mem_filter, List.mem_range]
+
+/-- the source hashes mutations by identity (read by the translator on every run) -/
+theorem C03_source_hash_identity : DEvo.Generated.mutationHashById = true := by decide
+
+/-- with a hash shared by equal-looking mutations the surviving twin of a removed mutation goes, too -/
+theorem C03_cex_hash_by_type :
+    finalFilter false ["ChangeField a", "AddField b", "ChangeField a"] [0] = [1] ∧
+    finalFilter true ["ChangeField a", "AddField b", "ChangeField a"] [0] = [1, 2] := by decide
+
 end DEvo.Props.C03
